@@ -43,7 +43,8 @@ def _e1_parts(prop):
         {"name": "uaf", "pkg": "e1_store", "race": False, "shards": 16, "env": {"VERIF_PROP": prop}},
     ] + ([{"name": "swarm-upload", "pkg": "c16_upload", "netns": "isolated", "race": False, "shards": 16, "env": {"VERIF_PROP": "C01"}},
           {"name": "swarm-readers", "pkg": "c02_reader", "netns": "loopback", "race": False, "shards": 16, "env": {"VERIF_PROP": "C01", "VERIF_PART": "readers"}},
-          {"name": "swarm-frontends", "pkg": "c02_reader", "netns": "loopback", "race": False, "shards": 16, "env": {"VERIF_PROP": "C01", "VERIF_PART": "frontends"}}] if prop == "C01" else []) + ([{"name": "lru", "pkg": "e1_store", "race": False, "shards": 16, "env": {"VERIF_PROP": prop}},
+          {"name": "swarm-frontends", "pkg": "c02_reader", "netns": "loopback", "race": False, "shards": 16, "env": {"VERIF_PROP": "C01", "VERIF_PART": "frontends"}},
+          {"name": "swarm-large", "pkg": "c09_conserve", "netns": "isolated", "race": False, "shards": 9, "env": {"VERIF_PROP": "C01", "VERIF_PART": "large"}}] if prop == "C01" else []) + ([{"name": "lru", "pkg": "e1_store", "race": False, "shards": 16, "env": {"VERIF_PROP": prop}},
           {"name": "torexpire", "pkg": "c03_torexpire", "netns": "isolated", "race": False, "shards": 16}] if prop == "C03" else [])
 
 CHECKS["C01"] = {
@@ -118,7 +119,8 @@ CHECKS["C16"] = {
     "assumptions": E3_ASSUME + ["the 'at most five unchoked per torrent' rotation is a mechanism, not part of the statement: it is reported, not asserted"],
     "min": {"distinct_nontrivial": {"quick": 50, "thorough": 50}, "counters": {"pieces_answering_our_requests": 2000, "unchoke_accounting_cuts_nonzero": 1000, "rejects_for_our_requests": 100}},
     "parts": [{"name": "upload", "pkg": "c16_upload", "netns": "isolated", "race": False, "shards": 16},
-              {"name": "upload-race", "pkg": "c16_upload", "netns": "isolated", "race": True, "shards": 16, "env": {"VERIF_RACE_SUBSET": "1"}}],
+              {"name": "upload-race", "pkg": "c16_upload", "netns": "isolated", "race": True, "shards": 16, "env": {"VERIF_RACE_SUBSET": "1"}},
+              {"name": "large", "pkg": "c09_conserve", "netns": "isolated", "race": False, "shards": 9, "env": {"VERIF_PROP": "C16", "VERIF_PART": "large"}}],
     "technique": "runtime monitor: upload-discipline checker inside the scripted leecher (every Piece must answer an outstanding, un-cancelled, un-choked request with the true bytes) + unchoke accounting invariant by reflect at quiescent cuts; -race",
     "level_text": "Every Piece/Reject/Choke/Unchoke storrent sends in the generated histories is judged by the receiving scripted leecher against its own request log and the truth; peer.NumUnchoking() is compared with the actors' flags and the remotes' view at every cut and after deletion. Held on the histories observed.",
     "level_note": "requests sent by a non-fast remote while it knows it is choked are expected to be dropped silently",
@@ -216,7 +218,8 @@ CHECKS["C02"] = {
     "min": {"distinct_nontrivial": {"quick": 60, "thorough": 60}, "counters": {"reads": 5000, "bytes_compared": 50000000, "evictions": 1000, "eofs": 300, "reads_resumed_after_zero_returns": 20, "http_206": 100, "fuse_reads": 500, "blocked_reads_failed_promptly:cancel": 50, "blocked_reads_failed_promptly:kill": 50}},
     "parts": [{"name": "readers", "pkg": "c02_reader", "netns": "loopback", "race": False, "shards": 16},
               {"name": "frontends", "pkg": "c02_reader", "netns": "loopback", "race": False, "shards": 16},
-              {"name": "readers-race", "pkg": "c02_reader", "netns": "loopback", "race": True, "shards": 16, "env": {"VERIF_RACE_SUBSET": "1"}}],
+              {"name": "readers-race", "pkg": "c02_reader", "netns": "loopback", "race": True, "shards": 16, "env": {"VERIF_RACE_SUBSET": "1"}},
+              {"name": "large", "pkg": "c09_conserve", "netns": "isolated", "race": False, "shards": 9, "env": {"VERIF_PROP": "C02", "VERIF_PART": "large"}}],
     "technique": "runtime monitor: seekable-file reference model stepped next to real Readers / HTTP Range requests / FUSE reads over a virtual-time swarm with auto-seeds and evictions; content oracle (PRF truth); bounded-progress and prompt-failure oracles in virtual time; -race",
     "level_text": "Generated seek/read programs, ranged GETs and concurrent FUSE reads run against the real Reader while scripted seeds deliver (or corrupt) data and pieces are evicted in between; every returned byte, length, EOF, Seek result and HTTP range answer is compared with the reference, blocked reads must resume within a virtual-time bound and fail promptly on cancel/Kill. Held on the histories observed.",
     "level_note": "the HTTP and FUSE parts are driven without sockets / kernel (mux + recorder, fs.Node interfaces)",
